@@ -785,7 +785,8 @@ impl W3Exec {
             }
         }
         // de-duplicate by canonical hidden state (queue times matter only when the clock can be pulled back)
-        let with_qtime = cfg.allow_overflow || has(&cfg, w3mon::TIE_CLASSIFY);
+        // (queue times never matter for the FIFO specification: priority within a level is the order of queuing)
+        let with_qtime = false;
         let first_sched = survivors[0].schedule.clone();
         let mut seen = std::collections::BTreeSet::new();
         let mut nb: Vec<Vec<Model>> = vec![];
